@@ -53,6 +53,8 @@ EINSUM = {
     "transmul": ("ji,ij->ij", [(2, 2), (2, 2)]), "proj": ("ji,jk,kl->il", [(2, 2), (2, 2), (2, 2)]),
     "matsum": ("ij->", [(2, 3)]), "batched": ("bij,bj->bi", [(2, 2, 2), (2, 2)]),
     "matmat": ("ij,jk->ik", [(2, 3), (3, 2)]),
+    # tiny shapes for C19 (finite_difference forks ~3 ways per reported value)
+    "dot2": ("i,i->", [(2,), (2,)]), "dot1": ("i,i->", [(1,), (1,)]), "outer11": ("i,j->ij", [(1,), (2,)]),
 }
 
 
@@ -75,6 +77,7 @@ MATH = {
     "bcast": ("inp0*inp1", [(2, 1), (3,)]),
     "sqrtlog": ("sqrt(inp0) + log(inp1)", [(2,), (2,)]),
     "repeat": ("inp0*inp0*inp1", [(2,), (2,)]),
+    "trig1": ("sin(inp0)*inp1 + exp(inp1)", [(), ()]),
 }
 
 
@@ -517,13 +520,15 @@ def module_grid(tier):
         G.append(dict(mod=mod, id="%s-%s" % (mod, ident), **kw))
 
     for k in EINSUM:
-        add("einsum", k, expr=k)
+        if k not in ("dot2", "dot1", "outer11"):
+            add("einsum", k, expr=k)
     add("einsum", "matvec-cplx", expr="matvec", cplx=[True, True])
     add("einsum", "matvec-cplxA", expr="matvec", cplx=[True, False])
     add("einsum", "dot-cplxb", expr="dot", cplx=[False, True])
     add("einsum", "quad-cplx", expr="quad", cplx=[True, False, True])
     for k in MATH:
-        add("mathgeneral", k, expr=k)
+        if k != "trig1":
+            add("mathgeneral", k, expr=k)
     add("concat", "3sig")
     for mode in ("objective", "min", "max"):
         add("scaling", mode, mode=mode)
